@@ -32,6 +32,7 @@ var intrinsics map[string]externalFn
 func init() {
 	intrinsics = map[string]externalFn{
 		"vSymbolic": func(fr *frame, args []value) value { return true },
+		"vLog":      func(fr *frame, args []value) value { return nil },
 		"vAnd": func(fr *frame, args []value) value { return fr.i.vand(args[0], args[1]) },
 		"vOr": func(fr *frame, args []value) value {
 			return fr.i.vnot(fr.i.vand(fr.i.vnot(args[0]), fr.i.vnot(args[1])))
